@@ -144,15 +144,6 @@ class Connect(Contract):
         return (W.sock, mk(ip, T.Opt(T.Str), 'proxy_url'))
 
 
-@contract('lomond.websocket.WebSocket.build_request', serves=[], external=True)
-class BuildRequest(Contract):
-    """ASSUMED here (string code; bounded stand-in bounded/request.py): returns the request bytes"""
-    def result(self, ip, a, old):
-        b = mk(ip, T.Bytes(BYTES), 'request')
-        ip.st.assume(b.n >= 16, b.at(IntVal(0)) == 71)      # 'GET ...' (request syntax: bounded stand-in)
-        return b
-
-
 @contract('lomond.session.WebsocketSession._send_request', serves=['C09', 'C10', 'C19'])
 class SendRequest(Contract):
     """exactly one write, of the websocket's request; a refused or failed write surfaces as a
